@@ -86,6 +86,7 @@ type state struct {
 	fired    map[string]int64
 	onOp     func(proc int, op, class, path string)
 	onFileOp func(file *File, op string)
+	tmpSeq   int
 	onLock   func(ev LockEvent)
 }
 
@@ -413,7 +414,7 @@ func deadErr(t *simrt.Task, proc int) error {
 // halt kills the calling task's simulated process: descriptors are closed (the
 // kernel releases its locks) and the calling task unwinds.
 func halt(proc int) {
-	Kill(proc)
+	KillProc(proc)
 	_, t := simrt.Current()
 	if t != nil {
 		if t.Local == nil {
@@ -424,8 +425,8 @@ func halt(proc int) {
 	panic(Halt{proc})
 }
 
-// Kill marks a simulated process dead and closes its descriptors.
-func Kill(proc int) {
+// KillProc marks a simulated process dead and closes its descriptors.
+func KillProc(proc int) {
 	st.mu.Lock()
 	st.dead[proc] = true
 	var mine []*File
@@ -1069,3 +1070,156 @@ func Flock(fd int, how int) error {
 }
 
 var _ = fmt.Sprintf
+
+// ---- processes (the type only; behaviour lives in verif/sim/exec) ----
+
+// ProcessImpl is what a simulated process does when signalled.
+type ProcessImpl interface {
+	Signal(sig os.Signal) error
+}
+
+// Process replaces os.Process.
+type Process struct {
+	Pid  int
+	impl ProcessImpl
+}
+
+func NewProcess(pid int, impl ProcessImpl) *Process { return &Process{Pid: pid, impl: impl} }
+
+func (p *Process) Signal(sig os.Signal) error { return p.impl.Signal(sig) }
+func (p *Process) Kill() error                { return p.impl.Signal(os.Kill) }
+func (p *Process) Release() error             { return nil }
+
+// ---- host environment ----
+
+var (
+	envMu  sync.Mutex
+	envTab map[string]string // nil: the real environment
+)
+
+// SetEnvTable installs the simulated host environment (nil restores the real one).
+func SetEnvTable(m map[string]string) {
+	envMu.Lock()
+	envTab = m
+	envMu.Unlock()
+}
+
+func Getenv(key string) string {
+	envMu.Lock()
+	defer envMu.Unlock()
+	if envTab == nil {
+		return os.Getenv(key)
+	}
+	return envTab[key]
+}
+
+func LookupEnv(key string) (string, bool) {
+	envMu.Lock()
+	defer envMu.Unlock()
+	if envTab == nil {
+		return os.LookupEnv(key)
+	}
+	v, ok := envTab[key]
+	return v, ok
+}
+
+func Setenv(key, value string) error {
+	envMu.Lock()
+	defer envMu.Unlock()
+	if envTab == nil {
+		return os.Setenv(key, value)
+	}
+	envTab[key] = value
+	return nil
+}
+
+func Environ() []string {
+	envMu.Lock()
+	defer envMu.Unlock()
+	if envTab == nil {
+		return os.Environ()
+	}
+	var l []string
+	for k, v := range envTab {
+		l = append(l, k+"="+v)
+	}
+	sort.Strings(l)
+	return l
+}
+
+// ---- further path operations (pass-through behind a yield and the fault plan) ----
+
+func simple(op, name string, f func() error) error {
+	d, err := Enter(op, name)
+	if err != nil {
+		return err
+	}
+	if d.fail != nil {
+		return d.fail
+	}
+	err = f()
+	proc, _ := curProc()
+	d.after(proc)
+	return err
+}
+
+func RemoveAll(path string) error {
+	return simple("removeall", path, func() error { return os.RemoveAll(path) })
+}
+func Rename(oldpath, newpath string) error {
+	return simple("rename", oldpath, func() error { return os.Rename(oldpath, newpath) })
+}
+func Chmod(name string, mode fs.FileMode) error {
+	return simple("chmod", name, func() error { return os.Chmod(name, mode) })
+}
+func Symlink(oldname, newname string) error {
+	return simple("symlink", newname, func() error { return os.Symlink(oldname, newname) })
+}
+func Link(oldname, newname string) error {
+	return simple("link", newname, func() error { return os.Link(oldname, newname) })
+}
+func Mkdir(name string, perm fs.FileMode) error {
+	return simple("mkdir", name, func() error { return os.Mkdir(name, perm) })
+}
+
+// MkdirTemp creates a directory with a deterministic name (a per-run counter
+// instead of os.MkdirTemp's random suffix, so that logs and traces replay).
+func MkdirTemp(dir, pattern string) (string, error) {
+	if dir == "" {
+		dir = TempDir()
+	}
+	var name string
+	err := simple("mkdirtemp", dir, func() error {
+		for i := 0; i < 10000; i++ {
+			st.mu.Lock()
+			st.tmpSeq++
+			n := st.tmpSeq
+			st.mu.Unlock()
+			prefix, suffix := pattern, ""
+			if j := strings.LastIndex(pattern, "*"); j >= 0 {
+				prefix, suffix = pattern[:j], pattern[j+1:]
+			}
+			name = filepath.Join(dir, fmt.Sprintf("%s%06d%s", prefix, n, suffix))
+			err := os.Mkdir(name, 0o700)
+			if err == nil {
+				return nil
+			}
+			if !os.IsExist(err) {
+				return err
+			}
+		}
+		return errors.New("simos.MkdirTemp: no free name")
+	})
+	if err != nil {
+		return "", err
+	}
+	return name, nil
+}
+
+// TempDir honours the simulated environment.
+func TempDir() string {
+	if d := Getenv("TMPDIR"); d != "" {
+		return d
+	}
+	return "/tmp"
+}
